@@ -159,6 +159,9 @@ func (sc *scenario) chunks(n int) []int {
 	rng := rand.New(rand.NewSource(sc.Split))
 	var cs []int
 	budget := 300
+	if light() {
+		budget = 80
+	}
 	for n > 0 {
 		c := 16384
 		if budget > 0 {
@@ -597,7 +600,7 @@ func genBase(rng *rand.Rand, i int) (scenario, int) {
 	sc.Limit = vlib.Pick(rng, limits...)
 	maxBytes := 120000
 	if light() {
-		maxBytes = 20000
+		maxBytes = 6000
 	}
 	if rng.Intn(25) == 0 && !light() {
 		sc.Limit = -1 // default 4 MB
@@ -708,7 +711,8 @@ var gzEcfgs = []ecfg{{msgfix.Gzip, ""}, {msgfix.Gzip, "gzip"}, {msgfix.Gzip, msg
 
 func genGzBomb(rng *rand.Rand, i int) scenario {
 	sc := scenario{Role: []string{"server", "client"}[i%2], E: gzEcfgs[(i/2)%len(gzEcfgs)], Split: rng.Int63(), Mode: "whole", EndSep: rng.Intn(2) == 0}
-	sc.Limit = vlib.Pick(rng, 1, 1000, 65535, 1<<20)
+	// the 80 KB compressed payload itself must pass the declared-size check
+	sc.Limit = vlib.Pick(rng, 100000, 200000, 1<<20)
 	if rng.Intn(2) == 0 {
 		sc.Items = append(sc.Items, validItem(rng, &sc, 1000))
 	}
@@ -757,9 +761,18 @@ func report(r *vlib.Run, fam string, i int, sc any, res *result) {
 	}
 }
 
+// floor: the must-hit prefix (role x encoding configuration x hostile kind by
+// index) guarantees far more distinct signatures than this in either mode.
+func floor() int {
+	if light() {
+		return 25
+	}
+	return 150
+}
+
 func div() int {
 	if light() {
-		return 6
+		return 16
 	}
 	return 1
 }
@@ -780,6 +793,6 @@ func TestVerifC06(t *testing.T) {
 			"third-party legacy Decompressor.Do(io.Reader) cannot be told the limit: the limit+1 materialization bound is judged for registered compressors and the built-in legacy gzip decompressor only",
 			"a declaration over the limit that is also cut short may fail with RESOURCE_EXHAUSTED or a truncation error",
 		},
-		Floor: 60,
+		Floor: floor(),
 	})
 }
